@@ -3,6 +3,7 @@ package verifsim
 import (
 	"bytes"
 	"fmt"
+	"github.com/idena-network/idena-go/blockchain/attachments"
 	"sort"
 	"testing"
 	"time"
@@ -29,9 +30,15 @@ const (
 	certWrongRound
 	certValid
 	certDuplicated // a quorum-sized list made of fewer distinct voters (the same valid signature repeated)
+	certPostBlock  // votes of the committee drawn from the validator set AFTER the block (incl. somebody the block switches online)
 )
 
-var certShapeNames = []string{"nil", "empty", "under-quorum", "forged", "wrong-round", "valid", "duplicated-votes"}
+var certShapeNames = []string{"nil", "empty", "under-quorum", "forged", "wrong-round", "valid", "duplicated-votes", "post-block-committee"}
+
+// c08Aim != 0 directs the next fork experiment at a status-switch height: the fork's tip is the
+// block at that height, which switches an identity online, and its certificate is signed by the
+// committee of the validator set AFTER the block.
+var c08Aim uint64
 
 // shapeCert builds a certificate of the wanted shape for block b on builder's head state
 // (= the validator view at b's parent). Returns nil,false if the shape cannot be formed.
@@ -196,6 +203,17 @@ func TestVerifC08(t *testing.T) {
 				rep.Note("scenario %d stopped at step %d: block refused (%v)", sc, i, res.Errs)
 				break
 			}
+			if len(w.Blocks) >= 12 {
+				// directed: a status-switch height lies 1..4 blocks ahead
+				h := w.Replicas[1].Head().Height()
+				if rng := w.Cons.StatusSwitchRange; rng > 0 {
+					if S := (h/rng + 1) * rng; S-h <= 4 && S-h >= 2 {
+						c08Aim = S
+						forkExperiment(w, rep, r, sc, i)
+						c08Aim = 0
+					}
+				}
+			}
 			if i%every != every-1 || len(w.Blocks) < 12 {
 				continue
 			}
@@ -223,6 +241,12 @@ func forkExperiment(w *World, rep *verifutil.Report, r *verifutil.Rng, sc, step 
 		}
 	case 2:
 		m = d + r.Range(1, 4)
+	}
+	if c08Aim != 0 {
+		d = r.Range(1, minInt(2, maxD))
+		ancestor = head - uint64(d)
+		lenClass = 2
+		m = int(c08Aim - ancestor)
 	}
 	own := w.Blocks[len(w.Blocks)-d:]
 
@@ -278,6 +302,28 @@ func forkExperiment(w *World, rep *verifutil.Report, r *verifutil.Rng, sc, step 
 	innerShape := certShape(r.Pick(4, 2, 1, 1, 1, 4, 0))
 	tamperTip := r.Intn(8) == 0
 	contentClass := "plain"
+	var comesOnline *Actor
+	if c08Aim != 0 {
+		tipShape, tamperTip = certValid, false // replaced by the post-block certificate below when one can be formed
+		// somebody validated, offline, with a key we hold, and no switch pending
+		pending := map[common.Address]bool{}
+		for _, a := range B.AppState.State.StatusSwitchAddresses() {
+			pending[a] = true
+		}
+		for _, a := range w.SortedActors() {
+			if B.AppState.IdentityState.IsValidated(a.Addr) && !B.AppState.IdentityState.IsOnline(a.Addr) && !pending[a.Addr] && B.AppState.State.Delegatee(a.Addr) == nil {
+				comesOnline = a
+				break
+			}
+		}
+		if comesOnline != nil {
+			tx := w.Tx(comesOnline, types.OnlineStatusTx, nil, nil, attachments.CreateOnlineStatusAttachment(true))
+			if err := B.TxPool.AddExternalTxs(validation.InboundTx, tx); err != nil {
+				rep.Count("aimed_online_tx_refused:"+ErrClass(err), 1)
+				comesOnline = nil
+			}
+		}
+	}
 	for j := 0; j < m; j++ {
 		prev := B.Head()
 		var b *types.Block
@@ -346,9 +392,38 @@ func forkExperiment(w *World, rep *verifutil.Report, r *verifutil.Rng, sc, step 
 		if last && tamperTip {
 			break
 		}
+		var preApproved map[common.Address]bool
+		if last && c08Aim != 0 {
+			preApproved = map[common.Address]bool{}
+			vc := B.AppState.ValidatorsCache
+			if cm := vc.GetOnlineValidators(prev.Seed(), b.Height(), types.Final, B.Chain.GetCommitteeSize(vc, true)); cm != nil {
+				for _, x := range cm.ApprovedValidators.ToSlice() {
+					preApproved[x.(common.Address)] = true
+				}
+			}
+		}
 		if err := B.AddBlock(b); err != nil {
 			rep.Note("fork builder refused its own block: %v", err)
 			return
+		}
+		if last && c08Aim != 0 {
+			rep.Count("aimed_experiments", 1)
+			if comesOnline != nil && B.AppState.IdentityState.IsOnline(comesOnline.Addr) {
+				rep.Count("aimed_tip_switches_somebody_online", 1)
+			}
+			// the committee as drawn from the validator set AFTER the tip
+			post, quorum := w.MakeCert(B, B.AppState.ValidatorsCache, prev, b, types.Final)
+			foreign := 0
+			for _, v := range post.Votes {
+				if !preApproved[v.VoterAddr()] {
+					foreign++
+				}
+			}
+			if quorum && foreign > 0 {
+				fork[len(fork)-1].Cert = post.Compress()
+				tipShape = certPostBlock
+				rep.Count("aimed_post_block_certificates", 1)
+			}
 		}
 	}
 	if tamperTip && len(fork) != m {
